@@ -2472,14 +2472,18 @@ return 1;""",
             for overload in methods:
                 if overload.cpp_if:
                     body.append("#" + overload.cpp_if)
+                # Only count arguments supplied by the Python caller:
+                # intent(out), implied and hidden arguments are not.
+                params = overload.ast.params
                 if overload._nargs:
                     body.append(
                         "if (SHT_nargs >= %d && SHT_nargs <= %d) {+"
-                        % overload._nargs
+                        % (count_py_args(params[:overload._nargs[0]]),
+                           count_py_args(params))
                     )
                 else:
                     body.append(
-                        "if (SHT_nargs == %d) {+" % len(overload.ast.params)
+                        "if (SHT_nargs == %d) {+" % count_py_args(params)
                     )
                 append_format(
                     body,
@@ -3475,6 +3479,22 @@ class ToImplied(todict.PrintNode):
             #c_helper="ShroudLenTrim"
         else:
             return self.param_list(node)
+
+
+def count_py_args(params):
+    """Return the number of arguments which are passed by the Python caller.
+    i.e. intent in and inout which are not implied or hidden.
+
+    Args:
+        params - list of declast.Declaration
+    """
+    nargs = 0
+    for arg in params:
+        if arg.attrs["implied"] or arg.attrs["hidden"]:
+            continue
+        if arg.metaattrs["intent"] in ["in", "inout"]:
+            nargs += 1
+    return nargs
 
 
 def py_implied(expr, func):
